@@ -25,6 +25,61 @@ type crashHistory struct {
 	Pre         []op // executed normally
 	Last        op   // executed with the crash
 	Missing     bool // configured directory does not exist at the start
+	// Shape: what the entry of Last.ID looks like at the start, apart from a regular file: "symlink" (the entry was
+	// moved out of the directory and linked back), "hardlink" (a second name for the entry exists outside),
+	// "dangling-symlink" (a link to nothing is in the entry's place)
+	Shape string
+}
+
+var entryNames = map[string]string{}
+
+// entryName finds the file name the store uses for an identifier (by storing into a throw-away directory).
+func entryName(id string) string {
+	if n, ok := entryNames[id]; ok {
+		return n
+	}
+	d, err := os.MkdirTemp(scratchRoot(), "c20n-")
+	if err != nil {
+		return ""
+	}
+	defer os.RemoveAll(d)
+	vfs.Reset(vfs.Passthrough)
+	if r := doStore(d, docVariant("d1", id), false); r.class() != "ok" {
+		return ""
+	}
+	es, _ := os.ReadDir(d)
+	if len(es) != 1 {
+		return ""
+	}
+	entryNames[id] = es[0].Name()
+	return es[0].Name()
+}
+
+func applyShape(h crashHistory, sandbox, dir string) error {
+	if h.Shape == "" {
+		return nil
+	}
+	name := entryName(h.Last.ID)
+	if name == "" {
+		return fmt.Errorf("cannot determine the entry name of %q", h.Last.ID)
+	}
+	entry := filepath.Join(dir, name)
+	out := filepath.Join(sandbox, "relocated")
+	if err := os.MkdirAll(out, 0o755); err != nil {
+		return err
+	}
+	switch h.Shape {
+	case "symlink":
+		if err := os.Rename(entry, filepath.Join(out, name)); err != nil {
+			return err
+		}
+		return os.Symlink(filepath.Join(out, name), entry)
+	case "hardlink":
+		return os.Link(entry, filepath.Join(out, name))
+	case "dangling-symlink":
+		return os.Symlink(filepath.Join(out, "nothing-here"), entry)
+	}
+	return fmt.Errorf("unknown shape %s", h.Shape)
 }
 
 func crashHistories(thorough bool) []crashHistory {
@@ -35,6 +90,10 @@ func crashHistories(thorough bool) []crashHistory {
 		{Name: "overwrite-with-neighbour", Pre: []op{{Kind: "store", Doc: "d2", ID: "b"}, {Kind: "store", Doc: "d1", ID: "a"}}, Last: op{Kind: "store", Doc: "d3", ID: "a"}},
 		{Name: "missing-directory", Last: op{Kind: "store", Doc: "d1", ID: "a"}, Missing: true},
 		{Name: "noclobber-first-store", Last: op{Kind: "store", Doc: "d1", ID: "a", NoClobber: true}},
+		// entries that are not plain regular files when the store starts
+		{Name: "overwrite-of-symlinked-entry", Pre: []op{{Kind: "store", Doc: "d1", ID: "a"}}, Last: op{Kind: "store", Doc: "d3", ID: "a"}, Shape: "symlink"},
+		{Name: "overwrite-of-hard-linked-entry", Pre: []op{{Kind: "store", Doc: "d1", ID: "a"}}, Last: op{Kind: "store", Doc: "d3", ID: "a"}, Shape: "hardlink"},
+		{Name: "first-store-over-dangling-symlink", Last: op{Kind: "store", Doc: "d1", ID: "a"}, Shape: "dangling-symlink"},
 	}
 	// the same histories in the environment where the temporary directory is on another file system
 	n := len(hs)
@@ -72,6 +131,9 @@ func setup(h crashHistory) (sandbox, dir string, err error) {
 		if r := doStore(dir, docVariant(o.Doc, o.ID), o.NoClobber); r.class() != "ok" {
 			return sandbox, dir, fmt.Errorf("pre-state %s: %s %v", o, r.class(), r.Err)
 		}
+	}
+	if err := applyShape(h, sandbox, dir); err != nil {
+		return sandbox, dir, fmt.Errorf("pre-state shape %s: %v", h.Shape, err)
 	}
 	return sandbox, dir, nil
 }
